@@ -407,46 +407,7 @@ func checkICCJpeg(p *Program, r *Report) {
 		return
 	}
 	r.SawFn(shortFn(fn))
-	o := jpegOpts(p)
-	setD := p.Method("meta", "Data", "SetICCProfileData")
-	setE := p.Method("meta", "Data", "SetICCProfileError")
-	o.Prune = func(c *BoolVal) bool {
-		k := c.Key()
-		return c.Op == "!=" && strings.HasPrefix(k, "(1*index(.Data(") && !strings.Contains(k, "make#") && strings.Count(k, "index(") == 1 && !strings.HasSuffix(k, " != 0)")
-	}
-	e0 := NewEngine(p)
-	_ = e0
-	pr := func() *parserRun {
-		e := NewEngine(p)
-		e.EvalInits = true
-		e.MaxIter, e.MaxForks = o.MaxIter, o.MaxForks
-		e.Opaque, e.SeqCalls, e.Prune = o.Opaque, o.SeqCalls, o.Prune
-		e.TraceCalls = func(f *ssa.Function) bool { return f == setD || f == setE }
-		e.MaxPaths = 40000
-		st := newState()
-		s := &Stream{Name: "in"}
-		st.pos[s] = formInt(0)
-		run := &parserRun{Fn: fn, E: e, Stream: s}
-		run.Outs = e.Run(fn, []Val{&ReaderVal{S: s}}, st)
-		for _, out := range run.Outs {
-			switch out.Kind {
-			case "return":
-				tp, _ := out.Ret.(Tuple)
-				if len(tp) == 2 {
-					if ev, ok := tp[1].(*ErrVal); ok && ev.IsNil {
-						run.Succ = append(run.Succ, out)
-						continue
-					}
-				}
-				run.Fail = append(run.Fail, out)
-			case "cutoff":
-				run.Cutoff++
-			default:
-				run.Stuck = append(run.Stuck, out)
-			}
-		}
-		return run
-	}()
+	pr := jpegRun(p, true)
 	pos := p.FnPos(fn)
 	if len(pr.Stuck) > 0 {
 		r.Undecide(rule, "jpegmeta", p.Pos(pr.Stuck[0].Pos), "parser not extractable: "+pr.Stuck[0].Why)
